@@ -599,8 +599,11 @@ def replay(ctx, obj):
                               length=case.get("length"))])
     res = run_workers([job])[0]
     fails = res.get("float_fails", []) + res.get("mpf_fails", [])
-    same = [f for f in fails if f["signature"] == obj.get("signature")] or fails
+    # only the replayed cause counts: the same input may also exhibit an independent (listed) finding
+    same = [f for f in fails if f["signature"] == obj.get("signature")]
     print(json.dumps(same, indent=1))
+    if not same and fails:
+        print("other signatures on this input:", sorted({f["signature"] for f in fails}))
     return 1 if same else 0
 
 
